@@ -1,7 +1,7 @@
 (* C11 — property theorems.  Nothing but statements, `exact`, Print Assumptions.
    `reach g` : g is reachable from the initial state by ANY sequence of labels, i.e. under every
    interleaving of the accept loop, the handlers, Shutdown, Close, clients, origin and context. *)
-From G11 Require Import Shutdown ShutdownCheck ShutdownProofs ShutdownObligations.
+From G11 Require Import Shutdown ShutdownCheck ShutdownProofs ShutdownAccepts ShutdownObligations.
 Open Scope Z_scope.
 
 (* Shutdown decides "drained" (and then returns nil) only in a state where the counter is zero and
@@ -80,6 +80,14 @@ Theorem T11_counter_balanced : forall g,
   ((forall i c, getc g i = Some c -> pc c = CDone) -> cnt g = 0 /\ regs g = []).
 Proof. exact counter_balanced. Qed.
 Print Assumptions T11_counter_balanced.
+
+(* The trace-inclusion checker run on every recorded execution of the real proxy is sound: what it
+   accepts is the observable projection of a run of the LTS from its initial state — so every theorem
+   above applies to the state such a run ends in. *)
+Theorem T11_trace_inclusion_sound : forall tr,
+  accepts_visible tr = true -> exists ls g, runf g0 ls = Some g /\ vis ls = tr.
+Proof. exact accepts_visible_sound. Qed.
+Print Assumptions T11_trace_inclusion_sound.
 
 (* Non-vacuity: a run with an exchange in flight when Shutdown starts, a late connection that blocks
    on the registry lock, the response written with Connection: close, Shutdown returning nil, the late
